@@ -187,9 +187,11 @@ def build(r, fname, form):
                         pass
             close_c()
         src, exp, fs = gen_tag(r, form, multiline_ok)
+        # continuation lines of a block comment may be indented (spaces / tabs) in front of their ` * ` decoration
+        clead = r.choice(["", "", "\t", "  ", "\t\t", " \t"]) if form.kind == "block" and not fname.endswith((".md", ".html", ".xml")) else ""
         if form.cont and "\n" in src:
             # decorated continuation lines: ` * ` precedes the rest of the tag on each new line
-            src2 = src.replace("\n", "\n" + form.cont)
+            src2 = src.replace("\n", "\n" + clead + form.cont)
         else:
             src2 = src
         feats |= fs
@@ -198,7 +200,7 @@ def build(r, fname, form):
             # the tag sits on line k of a multi-line comment
             for _ in range(r.randint(1, 3)):
                 b.raw(noise() or "words")
-                b.comment_nl()
+                b.comment_nl(clead)
             feats.add("newline")
         pre = noise()
         if pre:
